@@ -6,7 +6,7 @@
 From DV Require Import RightsSpec RightsP RoomNode RoomNodeP Run_C07 C07P.
 
 (* the full statement, on what the model says the implementation observes; it is REFUTED on the
-   unchanged tree by the four witnesses below.  What holds for every input is (1)-(4). *)
+   current tree by the three witnesses of the open classes below.  What holds for every input is (1)-(4). *)
 Definition C07_full : Prop := forall c, spec_C07 c (run_C07 c) = true.
 
 (* (1) monotone, for every room held and every candidate: an accepted update never removes or alters a
@@ -21,10 +21,11 @@ Print Assumptions C07_update_monotone.
    represents) and every candidate: administrator entries with a new id justify one another in date
    order; in the groups the peer holds, user-admin and right entries with a new id are authored by
    administrators of that extended history, user entries by a user admin of the group or an
-   administrator; rows and rights of groups new to the peer by administrators; the resulting room decides
-   exactly what the rows kept grant.  Outside the known classes this is the property: class 4 is the
-   gap between "new id" and "new row", class 1 the references, class 3 the user-admin and user entries
-   of groups new to the peer. *)
+   administrator; of a group new to the peer (former class 3, repaired by 85b1827, now at full
+   strength): the row, its rights and its user-admin entries by administrators, its users by a user
+   admin of the group or an administrator; the resulting room decides exactly what the rows kept
+   grant.  Outside the open classes this is the property: class 4 is the gap between "new id" and
+   "new row", class 1 the references. *)
 Theorem C07_update_entitled_outside_known : forall evs r old cand b res,
   Rep evs r -> NoDup (map an_id (rmn_gnodes old)) ->
   prepare_room_with_history r old cand = POk (b, res) ->
@@ -33,8 +34,7 @@ Theorem C07_update_entitled_outside_known : forall evs r old cand b res,
   (exists r1, Rep evs1 r1 /\
      forall o, In o (rmn_gnodes old) -> find_auth r1 (an_id o) <> None -> has_entitled evs1 r1 o (rmn_gnodes res)) /\
   Forall (fun g => existsb (fun o => N.eqb (an_id o) (an_id g)) (rmn_gnodes old) = false ->
-                   admin_at evs1 (an_author g) (an_date g) = true /\
-                   Forall (fun x => admin_at evs1 (rn_author x) (rn_date x) = true) (an_rnodes g)) (rmn_gnodes res) /\
+                   new_group_entitled_upd evs1 g) (rmn_gnodes res) /\
   exists r', parse_room res = POk r' /\ forall probes, decisions r' probes = flat_map (decide_spec (evs_of_node res)) probes.
 Proof. exact update_entitled. Qed.
 Print Assumptions C07_update_entitled_outside_known.
@@ -59,7 +59,7 @@ Theorem C07_accepted_room_is_its_rows : forall n r probes,
 Proof. exact parse_room_decisions. Qed.
 Print Assumptions C07_accepted_room_is_its_rows.
 
-(* (5) closed witnesses, one per known-finding class: the candidate is accepted, lies in exactly that
+(* (5) closed witnesses, one per open known-finding class: the candidate is accepted, lies in exactly that
    class, and the oracle fails on what the model says the implementation does; the harness replays
    each on the real code (prepare_room_node directly and add_room_node on a real instance) *)
 Theorem C07_refuted_1 : accepted_and_fails wk1 1.
@@ -68,17 +68,19 @@ Print Assumptions C07_refuted_1.
 Theorem C07_refuted_2 : accepted_and_fails wk2 2.
 Proof. exact refuted_k2. Qed.
 Print Assumptions C07_refuted_2.
-Theorem C07_refuted_3 : accepted_and_fails wk3 3.
-Proof. exact refuted_k3. Qed.
-Print Assumptions C07_refuted_3.
+(* the witness of the repaired class 3 is refused now and the oracle holds on it *)
+Theorem C07_class3_witness_holds : known_C07 wk3 = [] /\ run_C07 wk3 = [141] /\ spec_C07 wk3 (run_C07 wk3) = true.
+Proof. exact repaired_k3. Qed.
+Print Assumptions C07_class3_witness_holds.
 Theorem C07_refuted_4 : accepted_and_fails wk4 4.
 Proof. exact refuted_k4. Qed.
 Print Assumptions C07_refuted_4.
-(* key 3, a plain user before, is administrator (classes 1, 2, 4) / user admin (class 3) afterwards *)
+(* key 3, a plain user before, is administrator after the class 1, 2, 4 candidates; the former class 3
+   candidate is refused *)
 Theorem C07_attacker_gains :
   admin_after wk0 3%N 6000 = Some false /\
   admin_after wk1 3%N 6000 = Some true /\ admin_after wk2 3%N 6000 = Some true /\ admin_after wk4 3%N 6000 = Some true /\
-  uadmin_after wk0 3%N 6000 = Some false /\ uadmin_after wk3 3%N 6000 = Some true.
+  uadmin_after wk0 3%N 6000 = Some false /\ uadmin_after wk3 3%N 6000 = None.
 Proof. exact attacker_gains. Qed.
 Print Assumptions C07_attacker_gains.
 
